@@ -5,7 +5,7 @@ From PV Require Import Lib.Base Lib.Utf8 Syntax.RGrammar Syntax.Code Model.PStat
 Local Open Scope nat_scope.
 
 Section Laws.
-  Variable c : cfg.
+  Variable c : rdata.
   Variable ev : handlers -> option rule -> bool -> expr -> scope -> rsig -> rmu -> rres.
   Variables (n : nat) (H : handlers) (R : option rule) (inv : bool).
 
@@ -94,11 +94,11 @@ Section Laws.
   Lemma cls_value nid cv chars ranges classes ic cinv tb sc g m v g' sc' m' :
     reval_body c ev n H R inv (ECls nid cv chars ranges classes ic cinv tb) sc g m = ROk v g' sc' m' ->
     v = VBytes (slice c (g_off g) (g_off g')) /\ g_st g' = g_st g /\ sc' = sc /\
-    class_decide (cU c) chars ranges classes ic cinv (fst (rune_at c (g_off g))) = true.
+    class_decide (rU c) chars ranges classes ic cinv (fst (rune_at c (g_off g))) = true.
   Proof.
     cbn. unfold term_result, step_rune. destruct (rune_at c (g_off g)) as [r w].
     destruct (Nat.eqb_spec w 0); [intros E; inversion E|].
-    destruct (class_decide (cU c) chars ranges classes ic cinv r) eqn:Ed; intros E; inversion E; subst; cbn; auto.
+    destruct (class_decide (rU c) chars ranges classes ic cinv r) eqn:Ed; intros E; inversion E; subst; cbn; auto.
   Qed.
 
   (* a label binds the value of its expression in the current scope *)
@@ -111,22 +111,22 @@ Section Laws.
      its state changes are discarded *)
   Lemma act_context nid id e sc g m g1 sc1 m1 v0 :
     ev H R inv e sc g m = ROk v0 g1 sc1 m1 ->
-    let x := block_ctx_ref c id (slice c (g_off g) (g_off g1)) (pos_of (cData c) (g_off g)) sc1 g1 m1 in
-    match ce_act (cE c) id x with
+    let x := block_ctx_ref c id (slice c (g_off g) (g_off g1)) (pos_of (rData c) (g_off g)) sc1 g1 m1 in
+    match ce_act (rE c) id x with
     | CbRet r err st' gs' =>
         exists m2, reval_body c ev n H R inv (EAct nid id e) sc g m = ROk r g1 sc1 m2 /\ u_gs m2 = gs'
     | CbPanic pv st' gs' =>
-        exists m2, reval_body c ev n H R inv (EAct nid id e) sc g m = RPanic pv m2 (pos_of (cData c) (g_off g1)) R
+        exists m2, reval_body c ev n H R inv (EAct nid id e) sc g m = RPanic pv m2 (pos_of (rData c) (g_off g1)) R
     end.
   Proof.
     intros E. cbn. rewrite E. unfold run_block.
-    destruct (ce_act (cE c) id _) as [r [msg|] st' gs'|pv st' gs']; cbn; eexists; split; reflexivity || auto.
+    destruct (ce_act (rE c) id _) as [r [msg|] st' gs'|pv st' gs']; cbn; eexists; split; reflexivity || auto.
   Qed.
 
   (* state-change blocks: the new store is kept *)
   Lemma stc_keeps_state nid id sc g m :
-    let x := block_ctx_ref c id [] (pos_of (cData c) (g_off g)) sc g m in
-    forall r err st' gs', ce_state (cE c) id x = CbRet r err st' gs' ->
+    let x := block_ctx_ref c id [] (pos_of (rData c) (g_off g)) sc g m in
+    forall r err st' gs', ce_state (rE c) id x = CbRet r err st' gs' ->
     exists m2, reval_body c ev n H R inv (EStC nid id) sc g m = ROk VNil (mkSig (g_off g) st') sc m2.
   Proof. intros x r err st' gs' E. cbn. unfold run_block. fold x. rewrite E. eexists. reflexivity. Qed.
 
